@@ -693,4 +693,11 @@ theorem post_of_ok {R : Rlp} {s : Src} (w : s.wf) {t : Tx} {s' : Src} (h : deser
 
 theorem seg_eq_consumed (s s' : Src) : seg s s' = consumed s s' := rfl
 
+
+theorem raw_eq_seg {R : Rlp} (hR : R.canonical) {s : Src} {t : Tx} {s' : Src} (h : TxPost R s t s') :
+    t.raw = seg s s' := by
+  rcases h with ⟨_, hraw, _⟩ | ⟨code, e, hdec, hseg, hfrom, _⟩
+  · exact hraw
+  · rw [(fromEip155_ok hfrom).2.2.2.1, hR code e hdec, hseg]
+
 end OntVerif.Proofs.Tx
